@@ -53,6 +53,18 @@ def take(loc, action_cfgs, agent=None, via_thread=False, plugins=None, extra_tri
     return agent, run, info
 
 
+def names_at(frame):
+    """The names an expression written at the line the frame is paused on can see: the frame's locals over its module's globals; in a
+    function its own names hide the module's also while they are unbound (the line would raise UnboundLocalError, not see the global)."""
+    names = dict(frame.f_globals)
+    code = frame.f_code
+    if code.co_flags & 0x1:      # CO_OPTIMIZED
+        for n in code.co_varnames + code.co_cellvars + code.co_freevars:
+            names.pop(n, None)
+    names.update(frame.f_locals)
+    return names
+
+
 def _tname(v):
     """The name of v's class as the class statement gave it (a metaclass can hide or falsify __name__)."""
     try:
